@@ -1,8 +1,39 @@
+_L = "IdenaModel.Ledger."
 PROP = {
+    # the three Props modules of the transaction-level ledger model (M-Ledger); C04Tx / C06Tx carry the
+    # transaction-level theorems the history-level checks of C04 and C06 build on
     "modules": ["IdenaModel.Props.C05", "IdenaModel.Props.C04Tx", "IdenaModel.Props.C06Tx"],
-    "theorems": [],
+    "theorems": [_L + t for t in [
+        # Props/C05.lean
+        "applyTx_others_not_lowered", "applyTx_unrelated_not_lowered", "contract_tx_only_vm_lowers",
+        "fundsEffect_others", "validateTx_no_panic", "validated_apply_no_panic", "effect_keeps", "applyTx_ok", "validate_common",
+        # Props/C04Tx.lean
+        "applyTx_inv", "applyTx_inv_contract", "applyTx_total_le", "fundsEffect_inv", "fundsEffect_total_le",
+        "applyTx_inv_needs_HeadOk", "exState_inv",
+        # Props/C06Tx.lean
+        "apply_needs_next", "apply_needs_next_nowrap", "apply_sets_nonce", "applyTx_epochInv", "curNonce_mono",
+        "replay_rejected_tx", "replay_rejected_immediately", "replay_rejected_later_epoch", "replay_after_steps",
+        "nonce_wraps_at_uint32",
+    ]],
     "channels": [{"name": "C05", "exe": "oracle_c05"}],
-    "trusted_base": [],
-    "assumptions": [],
+    "trusted_base": [
+        "sender_is_recovered_signer: the model's tx.sender is types.Sender(tx), the address recovered from the signature (ECDSA recovery is a parameter; that the signature binds every signed field is C18's theorem); the harness signs with real keys and reads the sender back through the real recovery",
+        "results of code outside the model are inputs on the operation line, computed by the harness with the same library calls the validators make: attachments.ParseXxx, crypto.PubKeyBytesToAddress, cid.Parse / cid.Cast, the VRF proof check of long answers, fee.CalculateGas (serialized size), embedded.AvailableContracts membership",
+        "contract VM (vm.VM): only the wrapper of applyTxOnState is modelled; IsWasm, ContractAddr, receipt.Success, receipt.GasUsed and the net balance changes of vm.Run are inputs (a fake VM in the harness); VmOk in Props/C04Tx.lean names what C15 has to supply",
+        "validators cache answers (IsValidated, IsOnlineIdentity, IsDiscriminated, IsPool, NetworkSize) are read from the real cache built from a committed identity-state tree and passed as registry bits",
+        "not modelled (no funds, no relationship, no replay counter): public key, genetic code, tx hash / epoch height stored in inviter links, identity-update-hook metadata, stats collector, StoreToIpfs post-insertion task, existence of empty state objects, uint32 overflow of shard sizes",
+        "shopspring/decimal DivRound(16) + truncation in ValidateFee modelled by exact integer arithmetic (divRound16)",
+    ],
+    "assumptions": [
+        "C05 / C04Tx theorems: the signer's balance (C05) resp. the whole state (C04Tx: Inv) is non-negative before the transaction — a consequence of C04 for reachable states",
+        "C04Tx: HeadOk — the head validators view used by getTxFee/getTxCost is empty whenever the checked state's view is (same view during block processing); applyTx_inv_needs_HeadOk shows the hypothesis is necessary (F9)",
+        "C04Tx contract types: VmOk / deltaSum <= 0 (obligations of the contract VM, property C15)",
+        "C06Tx: NoWrap — fewer than 2^32-1 transactions of one sender per epoch (nonce_wraps_at_uint32 shows the uint32 wrap otherwise); EpochInv (account epoch <= global epoch) is proved preserved by applyTx",
+    ],
 }
-META = {"text": "", "design_ref": "DESIGN.md 5 (C05), 4 (M-Ledger), Appendix A", "note": "", "technique": ""}
+META = {
+    "text": "Lean 4 theorem over the executable transaction model M-Ledger (ValidateTx clause by clause for all 23 types, applyTxOnState for all 23 types incl. the contract wrapper): for all configurations, states and transactions, a validated and applied transaction lowers the balance or stake of an address other than its recovered signer only when an inviter terminates its own invitee, a pool terminates its own delegator, or inside a contract transaction where the wrapper itself debits nobody but the signer (only a negative VM delta lowers anybody). Tied to blockchain/validation/validation.go and Blockchain.applyTxOnState by differential runs of the real code (verdict kind in three modes, fee, full post-state of every touched address and the globals) against the compiled model, and by an independent Go oracle over per-address (balance, stake) deltas of every live state object. The same modules carry the transaction-level theorems of C04 (invariant, total never grows) and C06 (next-nonce rule, no replay).",
+    "design_ref": "DESIGN.md 5 (C05, C04, C06), 4 (M-Ledger), Appendix A",
+    "note": "Trusted: Lean kernel (+propext, Classical.choice, Quot.sound), signature recovery, attachment parsers / cid / VRF / gas size as inputs, the contract VM as an input (wrapper only), the Go harness and overlay. Hypotheses: signer's balance non-negative (C04), HeadOk (F9), NoWrap (uint32 nonce).",
+    "technique": "Lean 4 proofs by case analysis over the transaction types on an executable model + differential correspondence against the real Go code + independent per-address delta oracle",
+}
